@@ -202,8 +202,125 @@ def r15_3(ctx, rc):
             rc.ok({'rmtree': f.qualname}, key=key)
 
 
+def _mentions_build_name(ctx, e, func):
+    for n in ast.walk(e):
+        if isinstance(n, ast.Call) and isinstance(n.func, ast.Attribute) \
+                and n.func.attr == 'build_name' and any(
+                    isinstance(g, Func) and g.cls == ctx.R.cache
+                    for g in ctx.prog.resolve_call(n, func)):
+            return True
+    return False
+
+
+def r15_4(ctx, rc):
+    """Every validation check (build-name comparison, cache reader,
+    argument validators and type tests) runs before any effect, wherever it
+    lives - also inside effectful callees."""
+    R = ctx.R
+    validators = {R.cache + '.read_immutable',
+                  R.builder + '._sanitize_filename',
+                  R.builder + '._sanitize_versions'}
+    for q in validators:
+        ctx.E.func(q)
+    total = 0
+    for F in entry_points(ctx):
+        sg = ctx.E.super(F)
+        effects = [n.id for n in sg.nodes if _is_effect_begin(ctx, n)]
+        seen = sg.reach(effects)
+        for n in sg.nodes:
+            what = None
+            if n.kind == 'out' and n.cn.kind == 'cond':
+                a = ctx.H.subst(n.cn.atom, n.func, n.cn)
+                if _mentions_build_name(ctx, a, n.func):
+                    what = 'build-name comparison'
+                elif n.frame.parent is None or \
+                        n.frame.func in R.public_static_methods:
+                    if isinstance(a, ast.Call) and isinstance(
+                            a.func, ast.Name) and a.func.id in (
+                                'isinstance', 'callable'):
+                        what = 'argument type test %s' % ast.unparse(a)[:40]
+            elif n.kind in ('leaf', 'enter') and \
+                    callee_name(n) in validators:
+                what = 'call of ' + callee_name(n)
+            if what is None:
+                continue
+            total += 1
+            key = '%s | %s in %s' % (F.qualname, what, n.func.qualname)
+            if n.id in seen:
+                rc.violation(
+                    'validation-after-effect | ' + key,
+                    '%s performs the %s (at %s) after a mutating effect has '
+                    'begun: a refused call is no longer free of side '
+                    'effects' % (F.qualname, what, n.where()), n.where(),
+                    sg.describe_path(sg.witness(seen, n.id)), key=key)
+            else:
+                rc.ok({'entry': F.qualname, 'check': what}, key=key)
+    if total < 8:
+        raise AnalysisError('only %d validation checks found' % total)
+
+
+def r15_5(ctx, rc):
+    """No effect can begin unless the build name was compared, except when
+    the name is unknown (None) or there is no cache file."""
+    R = ctx.R
+    for F in entry_points(ctx):
+        sg = ctx.E.super(F)
+        cmp_nodes = [n for n in sg.nodes if n.kind == 'out' and
+                     n.cn.kind == 'cond' and _mentions_build_name(
+                         ctx, ctx.H.subst(n.cn.atom, n.func, n.cn), n.func)]
+        if not cmp_nodes:
+            raise AnalysisError('no build-name comparison reachable from '
+                                + F.qualname)
+        cmp_ids = {n.id for n in cmp_nodes}
+        # the parameter compared with the stored name
+        names = set()
+        for n in cmp_nodes:
+            for x in ast.walk(n.cn.atom):
+                if isinstance(x, ast.Name) and x.id in n.func.params:
+                    names.add((n.func.qualname, x.id))
+
+        def allowed_skip(lab):
+            if not (isinstance(lab, tuple) and len(lab) == 4):
+                return False
+            pol, a, func, cn = lab
+            if isinstance(a, ast.Compare) and len(a.ops) == 1 and \
+                    isinstance(a.comparators[0], ast.Constant) and \
+                    a.comparators[0].value is None and \
+                    isinstance(a.left, ast.Name) and \
+                    (func.qualname, a.left.id) in names:
+                return (isinstance(a.ops[0], ast.Is) and pol == 'T') or (
+                    isinstance(a.ops[0], ast.IsNot) and pol == 'F')
+            if isinstance(a, ast.Call) and pol == 'F' and any(
+                    g in ('os.path.isfile', 'os.path.exists')
+                    for g in ctx.prog.resolve_call(a, func)
+                    if isinstance(g, str)) and (
+                        func in R.public_static_methods):
+                return True
+            return False
+        seen = sg.reach([sg.entry], avoid=lambda x: x.id in cmp_ids,
+                        edge_ok=lambda a, b, lab: not allowed_skip(lab))
+        effs = [n for n in sg.nodes if n.id in seen and
+                _is_effect_begin(ctx, n)]
+        key = '%s: effects only after the build name was compared' % \
+            F.qualname
+        if effs:
+            rc.violation(
+                'name-check-skippable | ' + F.qualname,
+                '%s can begin a mutating effect (%s) on a path that neither '
+                'compared the build name with the one stored in the cache '
+                'file nor established that the name is None or that there '
+                'is no cache file' % (F.qualname, callee_name(effs[0])),
+                effs[0].where(), sg.describe_path(
+                    sg.witness(seen, effs[0].id)), key=key)
+        else:
+            rc.ok({'entry': F.qualname, 'comparisons': len(cmp_nodes)},
+                  key=key)
+
+
 RULES = [
     ('R15.1', 'no mutating effect can precede a refusal point', r15_1),
     ('R15.2', 'refusal callees are read-only', r15_2),
     ('R15.3', 'temporary directory acquisition is paired', r15_3),
+    ('R15.4', 'every validation check precedes every effect', r15_4),
+    ('R15.5', 'no effect unless the build name was compared', r15_5),
 ]
